@@ -1837,6 +1837,281 @@ def run_roots_report(ctx, hists, results, table):
         ctx.obligation("correspondence: roots machine", False, "no sequence reached Coq")
 
 
+# ----------------------------------------------------------------------------
+# IDENTITY stream (round j): "returns a NEW score or part ... and the argument itself is not modified", at the level of
+# OBJECTS.  Every object of the argument (the Part objects and everything starting at a time point of a part) gets an
+# address by id(): part by part, inside a part in the order of flatten()'s key; heap before = their cells (48-bit
+# fingerprint of everything but the pitch, pitch or None).  After the real transpose() the objects met in the result that
+# are not objects of the argument are numbered on in first-met order.  Direct oracle: no address of the result is an
+# address of the argument, the argument's cells hold what they held, the result's cells = the argument's moved by the
+# diatonic arithmetic, same part sizes.  Correspondence: Model/C16_Heap.v hp_transpose (deepcopy with memo = allocation at
+# the end of the heap, then assignment to the copy's cells) returns exactly the observed heap and result (hp_case_ok).
+# Modes: "fresh" argument; "again" = the same argument transposed a second time, by another interval (the second call
+# is observed); "result" = the argument is itself the result of a transposition.
+
+def heap_objs(obj):
+    """Score or Part -> per part: [(part index, object, is_part)], the Part object first, then its objects by flatten's key."""
+    out = []
+    for pi, p in enumerate(_parts_of(obj)):
+        objs = []
+        for o in _objects(p):
+            objs.append((_heap_cell(pi, o, False)[0], o))
+        objs.sort(key=lambda r: (r[0][1], r[0][2], r[0][3]))
+        out.append([(pi, p, True)] + [(pi, o, False) for _, o in objs])
+    return out
+
+
+def _heap_cell(pi, o, is_part):
+    """(key, fingerprint, raw pitch) of one object, exactly as flatten() computes them."""
+    import partitura.score as S
+    if is_part:
+        pv = {k: v for k, v in vars(o).items() if k not in ("_points",)}
+        pfp = "Part{" + ",".join("%s=%s" % (k, _canon(v)) for k, v in sorted(pv.items())) + "}" + \
+              "points=" + _canon([tp.t for tp in o._points])
+        return (pi, -1, "", ""), pfp, None
+    d = dict(vars(o))
+    d.pop("_ref_attrs", None)
+    pitch = None
+    if isinstance(o, S.Note):
+        pitch = (d.pop("step", None), d.pop("alter", None), d.pop("octave", None))
+    fp = type(o).__name__ + "{" + ",".join("%s=%s" % (k, _canon(v)) for k, v in sorted(d.items())) + "}"
+    key = (pi, o.start.t if o.start is not None else -1, type(o).__name__, str(getattr(o, "id", None)) + "|" + fp)
+    return key, fp, pitch
+
+
+def _cell_val(pi, o, is_part):
+    key, fp, pitch = _heap_cell(pi, o, is_part)
+    return (h48(key, fp), canon_pitch(pitch), key)
+
+
+def run_identity_history(spec, calls):
+    """One live argument, a sequence of calls [target, n, q, d] (target "arg" = the original argument again, "result" = the
+    result of the call before).  Objects are numbered by id() over the WHOLE history (the argument's first, then what each
+    result brings); per call: heap before, addresses of the call's argument, heap after, addresses of the result."""
+    import partitura.score as S
+    from partitura.utils.music import transpose
+
+    arg = build(spec)
+    keep = [arg]
+    addr, order = {}, []
+
+    def number(obj):
+        rows = []
+        for part in heap_objs(obj):
+            row = []
+            for (pi, o, isp) in part:
+                if id(o) not in addr:
+                    addr[id(o)] = len(order)
+                    order.append((pi, o, isp))
+                row.append(addr[id(o)])
+            rows.append(row)
+        return rows
+
+    arg_addrs = number(arg)
+    heap0 = [_cell_val(*x) for x in order]
+    cur, cur_addrs, hb, obs = arg, arg_addrs, heap0, []
+    for (target, n, q, d) in calls:
+        tgt, tgt_addrs = (cur, cur_addrs) if target == "result" else (arg, arg_addrs)
+        res = transpose(tgt, S.Interval(n, q, d))
+        keep.append(res)
+        ok_type = isinstance(res, (S.Score, S.Part))
+        res_addrs = number(res) if ok_type else []
+        ha = [_cell_val(*x) for x in order]
+        obs.append({"target": target, "iv": (n, q, d), "heap0": hb, "arg": tgt_addrs, "heap2": ha, "res": res_addrs,
+                    "same_object": res is tgt, "same_type": type(res) is type(tgt)})
+        if not ok_type:
+            break
+        cur, cur_addrs, hb = res, res_addrs, ha
+    return {"heap0": heap0, "arg": arg_addrs, "obs": obs}
+
+
+def identity_history_oracle(hr):
+    """(index of the first failing call, messages) or (None, [])."""
+    for i, o in enumerate(hr["obs"]):
+        msgs = identity_oracle(o, o["iv"])
+        if msgs:
+            return i, msgs
+    return None, []
+
+
+def identity_oracle(r, iv):
+    n, q, d = iv
+    up, sem = d == "up", spec_semitones(n, q)
+    k0 = len(r["heap0"])
+    msgs = []
+    if r["same_object"]:
+        msgs.append("transpose returned the argument itself, not a new object")
+    if not r["same_type"]:
+        msgs.append("result is not of the argument's type")
+    shared = sorted({a for row in r["res"] for a in row if a < k0})
+    if shared:
+        msgs.append("the result is not new: %d of its objects ARE objects that existed before the call (the argument's or an earlier result's; first: %r)"
+                    % (len(shared), r["heap0"][shared[0]][2][1:]))
+    changed = [i for i in range(k0) if r["heap2"][i][:2] != r["heap0"][i][:2]]
+    if changed:
+        i = changed[0]
+        msgs.append("objects that existed before the call (the argument's / an earlier result's) were modified: %d changed (first: %r, pitch %r -> %r)"
+                    % (len(changed), r["heap0"][i][2][1:], r["heap0"][i][1], r["heap2"][i][1]))
+    if [len(x) for x in r["res"]] != [len(x) for x in r["arg"]]:
+        msgs.append("the result has parts of sizes %r, the argument %r" % ([len(x) for x in r["res"]], [len(x) for x in r["arg"]]))
+    elif not shared:
+        for ra, rr in zip(r["arg"], r["res"]):
+            for a, b in zip(ra, rr):
+                (f0, p0, key), (f1, p1, _) = r["heap0"][a], r["heap2"][b]
+                exp = None if p0 is None else spec_transpose(*p0, n, sem, up)
+                if f0 != f1 or p1 != exp:
+                    msgs.append("object %r of the result: %s, pitch %r -> %r, expected %r"
+                                % (key[1:], "same fingerprint" if f0 == f1 else "everything but the pitch differs from the argument's object", p0, p1, exp))
+                    return msgs
+    return msgs
+
+
+def _ccells(cells):
+    return clist(["(%s,%s)" % (zt(f), "None" if p is None else "(Some %s)" % cpitch(p)) for f, p, _ in cells])
+
+
+def _caddrs(rows):
+    return "[" + "; ".join("[" + "; ".join(str(a) for a in row) + "]" for row in rows) + "]%nat"
+
+
+def identity_term(hr):
+    obs = ["(%s,%s,%s,%s,%s,%s)" % (cbool(o["target"] == "result"), zt(o["iv"][0]), zt(QUALS.index(o["iv"][1])), cbool(o["iv"][2] == "up"),
+                                    _ccells(o["heap2"][len(o["heap0"]):]), _caddrs(o["res"])) for o in hr["obs"]]
+    return "(%s,%s,%s)" % (_ccells(hr["heap0"]), _caddrs(hr["arg"]), clist(obs))
+
+
+def call_txt(c):
+    return "transpose(%s, %s%d %s)" % ("the original argument" if c[0] == "arg" else "the latest result", c[2], c[1], c[3])
+
+
+def shrink_identity(spec, calls):
+    def failing_at(sp, cs):
+        try:
+            return identity_history_oracle(run_identity_history(sp, cs))[0]
+        except Exception:
+            return len(cs) - 1
+    try:
+        i = failing_at(spec, calls)
+        if i is None:
+            return spec, calls
+        calls = calls[:i + 1]
+        items = [(pi, ei) for pi, p in enumerate(spec["parts"]) for ei in range(len(p["events"]))]
+
+        def mk(sub):
+            s2 = copy.deepcopy(spec)
+            keep = set(sub)
+            for pi, p in enumerate(s2["parts"]):
+                p["events"] = [e for ei, e in enumerate(p["events"]) if (pi, ei) in keep]
+            return s2
+        return mk(core.ddmin(items, lambda sub: failing_at(mk(sub), calls) is not None)), calls
+    except Exception:
+        return spec, calls
+
+
+def gen_identity_calls(rng, all_ivs, unis):
+    r = rng.random()
+    ncalls = 1 if r < 0.5 else 2 if r < 0.8 else 3
+    calls = []
+    for k in range(ncalls):
+        r = rng.random()
+        if r < 0.15:
+            iv = (1, "P", rng.choice(["up", "down"]))
+        elif r < 0.25:
+            iv = rng.choice(unis)
+        elif r < 0.50 and calls:
+            iv = tuple(rng.choice(calls)[1:])
+        else:
+            iv = rng.choice(all_ivs)
+        calls.append(["arg" if k == 0 or rng.random() < 0.5 else "result"] + list(iv))
+    return calls
+
+
+def run_identity(ctx):
+    rng = ctx.rng
+    ncases = 150 if ctx.tier == "quick" else 1500
+    all_ivs = [(n, QUALS[qi], d) for n, qi in classes_model_order() for d in ("up", "down")]
+    unis = [iv for iv in all_ivs if iv[0] == 1]
+    jobs = [(dict(FIXED_SPEC, arg=a), cs) for a in ("part", "score")
+            for cs in ([["arg", 1, "P", "up"]], [["arg", 1, "P", "down"], ["arg", 1, "P", "down"]], [["arg", 2, "A", "down"], ["result", 2, "A", "up"]],
+                       [["arg", 7, "m", "up"], ["arg", 3, "M", "up"], ["result", 1, "P", "up"]])]
+    for _ in range(ncases):
+        jobs.append((gen_case_spec(rng, rng.choice([2, 4, 6])), gen_identity_calls(rng, all_ivs, unis)))
+    terms, kept, nviol = [], [], 0
+    for spec, calls in jobs:
+        ctx.evaluations += 1
+        try:
+            hr = run_identity_history(spec, calls)
+            bad, msgs = identity_history_oracle(hr)
+        except Exception as e:
+            hr, bad, msgs = None, len(calls) - 1, ["transpose raised %s: %s" % (type(e).__name__, e)]
+        feats = case_features(spec)
+        ctx.count("identity arg:" + spec["arg"])
+        ctx.count("identity calls per history:%d" % len(calls))
+        for k, c in enumerate(calls):
+            ctx.count("identity call on:" + ("fresh argument" if k == 0 else "the original argument again" if c[0] == "arg" else "the latest result"))
+            ctx.count("identity interval:" + ("P1" if tuple(c[1:3]) == (1, "P") else "other unison" if c[1] == 1 else c[3]))
+            if any(tuple(c[1:]) == tuple(c2[1:]) for c2 in calls[:k]):
+                ctx.count("identity interval:repeats an earlier one of the history")
+        if len(spec["parts"]) > 1:
+            ctx.count("identity has:several parts")
+        for f in sorted(feats & {"tie", "grace", "chord", "rest", "unp"}):
+            ctx.count("identity has:" + f)
+        if hr is not None:
+            k0 = len(hr["heap0"])
+            ctx.count("identity objects:" + ("<=10" if k0 <= 10 else "11-30" if k0 <= 30 else ">30"))
+            ctx.count("identity pitched objects", sum(1 for c in hr["heap0"] if c[1] is not None))
+        if msgs:
+            nviol += 1
+            if nviol <= 4:
+                small, scalls = shrink_identity(spec, calls)
+                try:
+                    m2 = identity_history_oracle(run_identity_history(small, scalls))[1] or msgs
+                except Exception as e:
+                    m2 = ["transpose raised %s: %s" % (type(e).__name__, e)]
+                ctx.violation("object identity: %s on a %s: %s" % ("; ".join(call_txt(c) for c in scalls), spec["arg"], "; ".join(m2)[:600]),
+                              {"kind": "identity", "spec": small, "calls": scalls, "failures": m2})
+            continue
+        if any(c[1] is not None for c in hr["heap0"]):
+            ctx.nontrivial(("identity", json.dumps(spec, sort_keys=True), json.dumps(calls)))
+        terms.append(identity_term(hr))
+        kept.append({"kind": "identity", "spec": spec, "calls": calls})
+    ctx.log('identity: %d histories (%d calls) observed, %d failing, %d to Coq' % (len(jobs), sum(len(c) for _, c in jobs), nviol, len(terms)))
+    if not terms:
+        ctx.obligation("correspondence: heap model hp_transpose = transpose() at the level of objects", False, "every history already failed the direct oracle")
+        return
+    try:
+        failing = ctx.coq_failing("identity", "From PV Require Import Model.C16 Model.C16_Heap.", "", terms, "hp_hist_ok", shard=30)
+        detail = failing[:5]
+    except RuntimeError as e:
+        failing, detail = [-1], str(e)[-1500:]
+    ctx.obligation("correspondence: the heap machine of Model/C16_Heap.v (deepcopy with its memo = new cells at the end of the heap, then "
+                   "assignment to the cells of the copy; calls on the original argument again or on the latest result) returns after every "
+                   "call exactly the observed heap and the observed result (objects numbered by id() over the whole history), on %d "
+                   "observed histories" % len(terms), not failing, detail)
+    for i in failing[:4]:
+        if i < 0:
+            ctx.violation("identity correspondence could not be evaluated in Coq: " + str(detail)[-600:], {"kind": "coq", "error": detail}, no_input=True)
+        else:
+            ctx.violation("Coq heap machine and transpose() disagree on the objects of result / argument (the Python oracle accepted the history)", kept[i])
+
+
+def replay_identity(r):
+    hr = run_identity_history(r["spec"], r["calls"])
+    bad, msgs = identity_history_oracle(hr)
+    print("oracle now says:", ("call %d: %s" % (bad + 1, "; ".join(msgs))) if msgs else "property holds on this input")
+    print("argument: addresses %r" % (hr["arg"],))
+    for k, o in enumerate(hr["obs"]):
+        print("call %d: %s -> result addresses %r" % (k + 1, call_txt([o["target"]] + list(o["iv"])), o["res"]))
+        for i in range(len(o["heap0"])):
+            if o["heap0"][i][1] != o["heap2"][i][1]:
+                print("    object %d %r existed before the call: pitch %r -> %r" % (i, o["heap0"][i][2][1:3], o["heap0"][i][1], o["heap2"][i][1]))
+        for ra, rr in zip(o["arg"], o["res"]):
+            for a_, b_ in list(zip(ra, rr))[:40]:
+                if o["heap0"][a_][1] is not None:
+                    print("    object %d (pitch %r) -> result object %d: pitch %r" % (a_, o["heap0"][a_][1], b_, o["heap2"][b_][1]))
+    return 0
+
+
 def run(ctx):
     ctx.rule = ("T2: _transpose_note_inplace executed on all 7 steps x 5 alterations x 9 octaves x 39 classes x 2 directions "
                 "(24570 rows) and transpose_note on 7 x 5 x 39 x 2 (2730 rows), graphs re-proved in the kernel; driver cases = "
@@ -1866,7 +2141,13 @@ def run(ctx):
                 "transposition; 45% of the intervals repeat one the history used before, half of the parts put in later carry the id of an "
                 "initial part; every transposition judged note by note against the parts the argument holds at that moment through "
                 "result.parts, result[i], iter(result), result.note_array(); argument unchanged; no shared objects.  Non-trivial = "
-                "histories with a state change and a transposition that pass.")
+                "histories with a state change and a transposition that pass.  "
+                "IDENTITY stream (objects: the result is new, the argument is not modified): 150 (thorough 1500) generated + 8 fixed "
+                "histories of 1-3 calls (50/30/20%) on ONE live Score/Part, later calls on the original argument again or on the latest "
+                "result (50/50), intervals P1 15%, another unison class 10%, an interval used before in the history 25%, else any; objects "
+                "numbered by id() over the whole history; after every call: no object of the result existed before the call, no object "
+                "that existed before the call changed, every object of the result = the argument's moved by the diatonic arithmetic.  "
+                "Non-trivial = passing histories whose argument holds a pitched note.")
     ctx.trusted = ["Coq 8.16.1 kernel incl. vm_compute",
                    "T2 tabulator and flattening/fingerprint code in harness/props/c16.py (runs the real functions, prints Coq literals; "
                    "step letters are interned C=0..B=6, alter None is read as 0)",
@@ -1876,6 +2157,9 @@ def run(ctx):
                    "observed histories as Coq terms",
                    "score-history stream: the operation runner run_score_history / judge_transposition of harness/props/c16.py and the "
                    "printing of the observed histories as Coq terms (a part = its flattened elements, as in the driver stream)",
+                   "identity stream: the numbering of objects by id() (all results kept alive), heap_objs / _heap_cell of "
+                   "harness/props/c16.py (a cell = 48-bit fingerprint of everything but the pitch + pitch; references between objects "
+                   "are part of the fingerprint as type/id/start time, not as addresses)",
                    "roots stream: the fresh-interpreter server (fork per request) and the reading of degree texts / key names into the "
                    "facts the model takes (deg_facts, key_facts, parse_name in harness/props/c16.py); string handling of "
                    "process_local_key / RomanNumeral is compared by the direct oracle only"]
@@ -1915,7 +2199,7 @@ def run(ctx):
     # T1 tie (harness/t1.py): see c12.py
     t1_ok = t1.tie(ctx, "C16")
     ctx.log('T1 tie: %s' % t1_ok)
-    ok, why = ctx.coq_props(expect_min=43)
+    ok, why = ctx.coq_props(expect_min=48)
     ctx.log('Props/C16.v checked: %s %s' % (ok, why[:300]))
     for what, rep in bad[:8]:
         ctx.violation(what, rep)
@@ -1923,6 +2207,8 @@ def run(ctx):
     ctx.extra["exhaustive"] = True
     ctx.extra["exhaustive_note"] = "the arithmetic domain named by the property is enumerated completely; scores/parts are sampled"
     run_driver(ctx)
+    # object identity: the result is made of new objects, the argument's objects hold what they held (Model/C16_Heap.v)
+    run_identity(ctx)
     # histories on ONE real Interval object: transpose() / transpose_note / .semitones interleaved with change_quality and
     # assignments of number / quality / direction; every step judged from the object's current fields (shared with C12:
     # harness/props/c12.py run_histories, Model/C12_Interval.v)
@@ -1974,6 +2260,8 @@ def replay(obj):
         return replay_roots(r)
     if k == "score_history":
         return replay_score_history(r)
+    if k == "identity":
+        return replay_identity(r)
     if k == "roots_table":
         srv = fresh_servers(1)[0]
         fwd, rev = srv.run([["plk_table", "twice"]])[0]
